@@ -120,17 +120,25 @@ def transitive_imports(mod):
 
 
 def failing_theorems(pid, log):
-    p = os.path.join(LEAN, 'TealerModel', 'Props', f'{pid}.lean')
-    lines = open(p, encoding='utf-8').read().split('\n')
-    starts = [(n, re.match(r'^theorem\s+(\S+)', l).group(1)) for n, l in enumerate(lines, 1) if re.match(r'^theorem\s+\S+', l)]
-    ns = re.search(r'^namespace\s+(\S+)', '\n'.join(lines), flags=re.M)
-    prefix = (ns.group(1) + '.') if ns else ''
-    bad = set()
-    for m in re.finditer(rf'Props/{pid}\.lean:(\d+):\d+: error', log):
-        ln = int(m.group(1))
+    """the theorems the build errors belong to: errors carry file and line; each is mapped to the enclosing theorem of that
+    file - a theorem of Props/<pid>.lean, or of a proof module it depends on (the tie theorems of Props/Tie*.lean), in which
+    case the name says so"""
+    bad = []
+    for m in re.finditer(r'(?:error: \S*?(TealerModel/[\w/]+\.lean):(\d+):\d+)|(?:(TealerModel/[\w/]+\.lean):(\d+):\d+: error)', log):
+        m = type('M', (), {'group': (lambda self, i, _m=m: (_m.group(1) or _m.group(3)) if i == 1 else (_m.group(2) or _m.group(4)))})()
+        rel, ln = m.group(1), int(m.group(2))
+        path = os.path.join(LEAN, rel)
+        if not os.path.exists(path): continue
+        lines = open(path, encoding='utf-8').read().split('\n')
+        ns = re.search(r'^namespace\s+(\S+)', '\n'.join(lines), flags=re.M)
+        prefix = (ns.group(1) + '.') if ns else ''
+        starts = [(n, mm.group(2)) for n, l in enumerate(lines, 1) for mm in [re.match(r'^(theorem|def)\s+(\S+)', l)] if mm]
         cands = [name for (n, name) in starts if n <= ln]
-        if cands: bad.add(prefix + cands[-1])
-    return sorted(bad)
+        name = prefix + (cands[-1] if cands else '?')
+        if rel != f'TealerModel/Props/{pid}.lean':
+            name += f' (in {rel}, on which Props/{pid}.lean depends)'
+        if name not in bad: bad.append(name)
+    return bad
 
 
 def leanchecker(mods):
